@@ -328,6 +328,11 @@ func (e *Env) ownSeverity(k *scoreKit) {
 		}
 		sf := e.P.SSAFunc(m)
 		leaves, err := ir.Leaves(sf, ir.LeafOptions{})
+		if err == nil && len(leaves) == 2 {
+			// an explicit guard for the nil receiver in front (if m == nil { return severity(noScore) }): the same
+			// value as severity(m.Score()) when Score itself returns that constant for a nil receiver
+			leaves = e.dropNilSeverityLeaf(l, leaves)
+		}
 		if err != nil || len(leaves) != 1 || len(leaves[0].Ret) != 1 {
 			c.Undecided("own-level-severity", fname(m), e.P.Pos(m.Pos()), fmt.Sprint("not a single-path function ", err))
 			continue
@@ -453,8 +458,9 @@ func (e *Env) severityBands(k *scoreKit) {
 		name := ""
 		if n != 1 || got == nil || got.Op != ir.OConst {
 			// the bands may be data (a table of thresholds walked by a helper): the function's summary evaluated at
-			// this grid point, exactly (a tenth as a rational; the thresholds are compared as written)
-			pt := facts.Value{Kind: facts.VConst, C: constant.BinaryOp(constant.MakeInt64(int64(t)), token.QUO, constant.MakeInt64(10)), Type: types.Typ[types.Float64]}
+			// this grid point, as the program computes it (the score is the float64 nearest to the tenth, a threshold the
+			// float64 nearest to what the source writes)
+			pt := facts.Value{Kind: facts.VConst, C: constant.MakeFloat64(float64(t) / 10), Type: types.Typ[types.Float64]}
 			r := e.F.Eval(sevFn, pt)
 			if r.Kind != facts.VConst || r.C == nil {
 				c.Undecided("severity-band", cons, e.P.Pos(sevFn.Pos()), fmt.Sprintf("%d paths apply, and the summary of the function gives %s", n, r))
@@ -685,4 +691,50 @@ func (e *Env) roundUpReference(k *scoreKit, rule string) {
 			c.Fail(rule, fmt.Sprintf("%s branch %q", who, rl.name), e.P.Pos(f.Pos()), "no path of the helper corresponds to this branch of the specification's algorithm")
 		}
 	}
+}
+
+// dropNilSeverityLeaf: of the two paths of a Severity method, the one guarded by "receiver == nil" that returns
+// f(c) for a constant c is dropped when the level's own Score has an explicit path for the nil receiver and
+// returns the same constant c on it (then f(c) is f(receiver.Score()) on that path too; that the remaining path
+// uses the same f is checked by the caller through sevFn).
+func (e *Env) dropNilSeverityLeaf(l *facts.Level, leaves []*ir.Leaf) []*ir.Leaf {
+	recvNil := ir.Bin("==", ir.Param(0), nilOf(l.Ptr()))
+	own := l.Method("Score")
+	if own == nil {
+		return leaves
+	}
+	for i, lf := range leaves {
+		other := leaves[1-i]
+		if len(lf.Guards) != 1 || lf.Guards[0].Key() != recvNil.Key() || len(lf.Ret) != 1 || len(other.Ret) != 1 {
+			continue
+		}
+		r, o := lf.Ret[0], other.Ret[0]
+		if r.Op != ir.OCall || len(r.Args) != 1 || !isZeroish(r.Args[0]) || o.Op != ir.OCall || o.Obj != r.Obj {
+			continue
+		}
+		if len(other.Guards) != 1 || other.Guards[0].Key() != ir.NotCond(recvNil).Key() {
+			continue
+		}
+		sl, err := ir.Leaves(e.P.SSAFunc(own), ir.LeafOptions{})
+		if err != nil {
+			return leaves
+		}
+		found := false
+		for _, s := range sl {
+			if !hasGuard(s, recvNil) {
+				continue
+			}
+			if len(s.Ret) != 1 || !isZeroish(s.Ret[0]) || constant.Compare(constant.ToFloat(s.Ret[0].C), token.NEQ, constant.ToFloat(r.Args[0].C)) {
+				return leaves
+			}
+			found = true
+		}
+		if !found {
+			return leaves
+		}
+		n := *other
+		n.Guards = nil
+		return []*ir.Leaf{&n}
+	}
+	return leaves
 }
